@@ -120,7 +120,7 @@ class C19(Check):
             for n in ([45] if tier == 'quick' else [31, 32, 33, 45, 80, 200]):
                 for nanv in (0, 1):
                     js.append(dict(kind='sum', cfg=c, k=n, long=True, nan=[nanv if i == n - 8 else (1 if i % 9 == 4 else 0) for i in range(n)]))
-        js.sort(key=lambda j: -j['k'] if not j.get('long') else 0)
+        js.sort(key=lambda j: -j['k'] if not j.get('long') else -10 ** 6 + j['k'])      # scale probes first (smallest first), then the small-bound jobs, largest first
         return js
 
     def _ncol(self, cfg):
